@@ -23,10 +23,12 @@ WEAK = {  # switch -> properties one of which TLC must refute
     "LateAddUnchecked": ("OnceOnly", "AdmitOnlyAdmissible"),
     "BufferUsesCurrentValSet": ("AdmitOnlyAdmissible", "NoPanic", "BufferFlushed"),
     "BufferDedupIgnoresVoteType": ("BufferFlushed",),
+    "UpdateAfterStateSave": ("OnceOnly", "BlockCheck", "OfferedOnce"),
     "CommittedMarkersDeferred": ("OnceOnly", "BlockCheck", "AdmitOnlyAdmissible"),
     "ExpiryUsesStartupParams": ("BlockCheck", "ExpiryBoth", "SurvivesRestart", "PendingKept"),
 }
-HARNESS = ["zz_verif_c11_test.go", "zz_verif_c11_gen_test.go"]
+HARNESS = ["zz_verif_c11_test.go", "zz_verif_c11_gen_test.go", "zz_verif_c11_apply_test.go"]
+NAPPLY = 14   # runs of the ApplyBlock crash-point family (harness: c11RunApplyFamily)
 
 
 def act_to_op(a):
@@ -40,6 +42,8 @@ def act_to_op(a):
         return {"op": "Report", "pair": a["pair"]}
     if n == "Update":
         return {"op": "Update", "ids": list(a["ids"]), "crash": bool(a["crash"])}
+    if n == "SaveState":   # weakened pipeline: the crash between the two steps of ApplyBlock
+        return {"op": "Update", "ids": list(a["ids"]), "crash": True}
     if n == "UpdateBegin":
         return {"op": "UpdateBegin", "ids": list(a["ids"]), "k": a["k"]}
     if n == "UpdateEnd":
@@ -239,7 +243,7 @@ def run(ctx):
     runs = attack + graph + cases + sims
     inp = os.path.join(ctx.work, "c11-in.json")
     with open(inp, "w") as f:
-        json.dump({"ctxs": cx, "runs": runs, "random": nrandom, "conc": nconc}, f)
+        json.dump({"ctxs": cx, "runs": runs, "random": nrandom, "conc": nconc, "apply": 1}, f)
     out = ctx.subdir("c11-out")
     binp = ctx.go_build_test("evidence", HARNESS)
     rc, txt = ctx.run_test(binp, "^TestVerifC11$", {"VERIF_IN": inp, "VERIF_OUT": out}, timeout=1200)
@@ -248,8 +252,8 @@ def run(ctx):
         raise Undecided("C11 harness failed (rc=%d): %s" % (rc, txt[-1500:]))
     rows = core.read_ndjson(os.path.join(out, "pool.ndjson"))
     nruns = sum(1 for r in rows if r["ev"] == "Reset")
-    if nruns != len(runs) + nrandom + nconc:
-        raise Undecided("harness executed %d of %d runs" % (nruns, len(runs) + nrandom + nconc))
+    if nruns != len(runs) + nrandom + nconc + NAPPLY:
+        raise Undecided("harness executed %d of %d runs" % (nruns, len(runs) + nrandom + nconc + NAPPLY))
 
     # ---- 6. trace validation (TLC on observed behaviour) -----------------------------------------
     v = core.validate_traces(ctx, "TMEvidenceTrace", rows, max_events=3000, timeout=1500, label="obs")
@@ -295,7 +299,8 @@ def run(ctx):
                 "pool or was a refusal; sources: counterexamples of the 8 weakened specs, BFS paths to every state of the "
                 "act-augmented graph %s (state-changing calls), admission cases = every item of the universe (genuine + every "
                 "single-field perturbation) offered at every pool height, %s seeded random runs and %s runs with interleaved "
-                "AddEvidence calls on random chains%s" % (graph_cfg, nrandom, nconc, (", %d simulated behaviours" % len(sims)) if sims else ""),
+                "AddEvidence calls on random chains, the ApplyBlock crash-point family (real BlockExecutor / sm.Store / "
+                "store.BlockStore / pool, power loss after evpool.Update or after store.Save at heights 2-4, restart + handshake rule)%s" % (graph_cfg, nrandom, nconc, (", %d simulated behaviours" % len(sims)) if sims else ""),
         "samples": [core.abridge([strip(r) for r in rows[1:4]], 3),
                     core.abridge([strip(r) for r in rows if r["ev"] == "Update"][:2], 2)],
         "exhaustive": bool(complete),
@@ -362,7 +367,11 @@ def replay(ctx, path):
     ops = [o for o in (row_to_op(r) for r in prefix[1:]) if o]
     inp = os.path.join(ctx.work, "c11-in.json")
     with open(inp, "w") as f:
-        json.dump({"ctxs": {"replay": prefix[0]["c"]}, "runs": [{"src": "replay", "ctx": "replay", "ops": ops}], "random": 0, "conc": 0}, f)
+        if prefix[0].get("src") == "apply":
+            # a run of the ApplyBlock crash-point family: the whole (small, deterministic) family is re-run
+            json.dump({"ctxs": {}, "runs": [], "random": 0, "conc": 0, "apply": 1}, f)
+        else:
+            json.dump({"ctxs": {"replay": prefix[0]["c"]}, "runs": [{"src": "replay", "ctx": "replay", "ops": ops}], "random": 0, "conc": 0}, f)
     out = ctx.subdir("c11-out")
     binp = ctx.go_build_test("evidence", HARNESS)
     rc, txt = ctx.run_test(binp, "^TestVerifC11$", {"VERIF_IN": inp, "VERIF_OUT": out})
